@@ -501,6 +501,14 @@ pub fn statement_types(stmts: &[Statement]) -> Vec<String> {
         .collect()
 }
 
+/// the leading identifier of a `Debug` rendering (the enum variant's name)
+pub fn variant_name(debug: &str) -> String {
+    debug
+        .chars()
+        .take_while(|c| c.is_alphanumeric() || *c == '_')
+        .collect()
+}
+
 impl crate::Context {
     /// canonical type scheme of an identifier in the type checker's environment (what later uses see)
     pub fn verif_c02_env_type(&self, name: &str) -> Option<String> {
@@ -515,6 +523,25 @@ impl crate::Context {
             .get_base_representation_for_name(name)
             .ok()
             .map(|br| factors_text(&DType::from(br)))
+    }
+
+    /// front end only (resolve, transform, type check) on a clone of the session: the canonical types of
+    /// the statements, or the stage and kind of the error.  Nothing runs and `self` is not changed.
+    pub fn verif_c02_check(&self, code: &str) -> Result<Vec<String>, String> {
+        let mut ctx = self.clone();
+        let statements = ctx
+            .resolver
+            .resolve(code, crate::resolver::CodeSource::Text)
+            .map_err(|e| format!("resolver {}", variant_name(&format!("{e:?}"))))?;
+        let transformed = ctx
+            .prefix_transformer
+            .transform(statements)
+            .map_err(|e| format!("name-resolution {}", variant_name(&format!("{e:?}"))))?;
+        let typed = ctx
+            .typechecker
+            .check(&transformed)
+            .map_err(|e| format!("type {}", variant_name(&format!("{e:?}"))))?;
+        Ok(statement_types(&typed))
     }
 
     /// the number the next fresh type variable `T<n>` will get
